@@ -1,6 +1,6 @@
 """C12 -- compiler output is deterministic, independent of the order of input
 files, and invariant under the pretty-print round trip."""
-import glob, hashlib, itertools, os, random, shutil, subprocess
+import glob, hashlib, itertools, os, random, re, shutil, subprocess
 from concurrent.futures import ThreadPoolExecutor
 from .. import build, core
 from ..asn import gen, model
@@ -68,6 +68,50 @@ def gen_module_set(seed, n):
     return files
 
 
+def gen_clash_set(seed, n):
+    """n independent modules whose top-level type names coincide in part (asn1c qualifies clashing names with the module
+    name): module k keeps the names of a share of its types and renames the rest"""
+    rng = random.Random(seed)
+    files = []
+    for i in range(n):
+        g = gen.Gen(seed * 11 + i, gen.profile(max_len=6))
+        m = g.module("MC%d%s" % (seed % 1000, "abcd"[i]), atoms=5, composites=4)
+        text = m.text()
+        names = sorted(m.types, key=len, reverse=True)
+        keep = set(rng.sample(names, rng.randint(1, len(names) - 1))) if i else set(names)
+        for nm in names:
+            if nm not in keep:
+                text = re.sub(r"\b%s\b" % nm, "%sq%s" % (nm, "abcd"[i]), text)
+        files.append(("mc%s.asn1" % "abcd"[i], text))
+    return files
+
+
+FIXED_VALUES = """FV DEFINITIONS AUTOMATIC TAGS EXTENSIBILITY IMPLIED ::= BEGIN
+
+Str ::= SEQUENCE {
+    s1 IA5String DEFAULT "say ""hi"" now",
+    s2 UTF8String DEFAULT "",
+    s3 VisibleString ("a""b" | "plain") OPTIONAL,
+    b1 BIT STRING DEFAULT '1011'B,
+    o1 OCTET STRING DEFAULT 'DEADBEEF'H,
+    i1 INTEGER { low(-5), high(5) } DEFAULT low,
+    i2 INTEGER (-9223372036854775807..9223372036854775807) DEFAULT -9223372036854775807,
+    e1 ENUMERATED { red(0), green(1), ..., blue(2) } DEFAULT green,
+    t1 BOOLEAN DEFAULT TRUE
+}
+
+quote IA5String ::= "a""b"
+
+maxint INTEGER ::= 9223372036854775807
+
+Sized ::= OCTET STRING (SIZE(1..maxint))
+
+Ch ::= CHOICE { a [0] Str, b [1] EXPLICIT Sized, c [2] NULL }
+
+END
+"""
+
+
 def run(tier, seed):
     chk = core.Check("C12", tier, seed)
     quick = tier == "quick"
@@ -89,9 +133,16 @@ def run(tier, seed):
     for i in range(nsingle):
         g = gen.Gen(seed * 100 + i, gen.profile(max_len=8))
         m = g.module("M%d" % i, atoms=8, composites=8)
-        sets.append(("gen-single-%d" % i, [("m.asn1", m.text())], True))
+        text = m.text()
+        if i % 2:
+            # the module header's second default: every SEQUENCE/SET/CHOICE/ENUMERATED becomes extensible
+            text = text.replace(" TAGS ::= BEGIN", " TAGS EXTENSIBILITY IMPLIED ::= BEGIN", 1)
+        sets.append(("gen-single-%d" % i, [("m.asn1", text)], True))
     for i in range(3 if quick else 15):
         sets.append(("gen-multi-%d" % i, gen_module_set(seed * 100 + 50 + i, rng.choice([2, 3, 4])), True))
+    sets.append(("gen-values-0", [("fv.asn1", FIXED_VALUES)], True))
+    for i in range(2 if quick else 10):
+        sets.append(("gen-clash-%d" % i, gen_clash_set(seed * 100 + 70 + i, rng.choice([2, 2, 3])), True, ("-fcompound-names",)))
     shipped = sorted(glob.glob(os.path.join(tc.repo, "tests/tests-asn1c-compiler/*-OK.asn1")))
     shipped = [f for f in shipped if "/43-" not in f and "old-syntax" not in f]
     shipped += sorted(glob.glob(os.path.join(tc.repo, "examples/*.asn1")))
@@ -105,7 +156,8 @@ def run(tier, seed):
         sets.append(("shipped:" + os.path.basename(f), [(os.path.basename(f), txt)], False))
 
     def one(item):
-        label, files, generated = item
+        label, files, generated = item[:3]
+        xopts = list(item[3]) if len(item) > 3 else []
         d = os.path.join(work, hashlib.sha1(label.encode()).hexdigest()[:10])
         os.makedirs(d, exist_ok=True)
         for n, t in files:
@@ -120,7 +172,7 @@ def run(tier, seed):
         for i, (tool, envx, prefix) in enumerate(variants):
             out = os.path.join(d, "run%d" % i, "o")
             os.makedirs(out)
-            rc, so, se = run_asn1c(tool, ["-S", skel, "-pdu=all", "-D", "o"] + ["../" + n for n in names],
+            rc, so, se = run_asn1c(tool, ["-S", skel, "-pdu=all", "-D", "o"] + xopts + ["../" + n for n in names],
                                    os.path.join(d, "run%d" % i), envx, prefix=prefix if shutil.which("setarch") else ())
             runs.append((rc, tree_digest(out, lambda r: r.endswith((".c", ".h", ".am", ".mk")) or "Makefile" in r), clean_err(se)))
         rec["runs"] = runs
@@ -133,7 +185,7 @@ def run(tier, seed):
             for i, pm in enumerate(perms):
                 out = os.path.join(d, "perm%d" % i, "o")
                 os.makedirs(out)
-                rc, so, se = run_asn1c(asan, ["-S", skel, "-pdu=all", "-D", "o"] + ["../" + n for n in pm],
+                rc, so, se = run_asn1c(asan, ["-S", skel, "-pdu=all", "-D", "o"] + xopts + ["../" + n for n in pm],
                                        os.path.join(d, "perm%d" % i))
                 skn = set(os.listdir(skel))
                 pres.append((pm, rc, tree_digest(out, lambda r: r.endswith((".c", ".h")) and r not in skn and
@@ -189,6 +241,8 @@ def run(tier, seed):
         elif len(set(rcs)) > 1:
             chk.violation({"symptom": "exit-status-differs-between-runs", "family": fam},
                           "asn1c exit status differs between identical runs of %s: %s" % (label, rcs), replay)
+        elif rcs[0] != 0 and label == "gen-values-0":
+            chk.inconcl("the fixed value-notation module was rejected: " + rec["runs"][0][2][:100])
         elif rcs[0] == 0:
             base = rec["runs"][0][1]
             for i, (rc, dg, se) in enumerate(rec["runs"][1:], 1):
@@ -260,6 +314,10 @@ def run(tier, seed):
             chk.count("print_fixpoint_%s" % fl)
         if len(chk.samples) < 5:
             chk.sample({"label": label, "files": rec["names"], "runs_rc": rcs, "print": [(r["flags"], r["rc1"], r.get("rc2"), r.get("same")) for r in rec["v"]]})
+    ngen = sum(1 for r in recs if r["generated"])
+    nrej = sum(1 for r in recs if r["generated"] and r["runs"][0][0] not in (0, -99))
+    if ngen and nrej * 2 > ngen:
+        chk.inconcl("more than half of the generated module sets were rejected (%d of %d)" % (nrej, ngen))
     return chk.finish()
 
 
